@@ -184,3 +184,250 @@ def c03_tree(part):
     if len(set(labels)) != len(labels):
         out.append(("label-dup", "two reachable cells share (depth, index)"))
     return out
+
+
+# ------------------------------------------------------------------ C01 (generic part)
+def c01_point(case, box, pt, step, algo, what="pull"):
+    d = len(box)
+    try:
+        ok_len = len(pt) == d
+    except Exception:
+        case.fail("C01", f"{what}-not-a-vector", f"{pt!r}", step=step, algo=algo); return
+    if not ok_len:
+        case.fail("C01", f"{what}-wrong-length", f"{len(pt)} coordinates for a {d}-D box", step=step, algo=algo); return
+    for x, (lo, hi) in zip(pt, box):
+        if not isinstance(x, (int, float, np.floating, np.integer)) or not math.isfinite(x):
+            case.fail("C01", f"{what}-non-finite", f"{pt!r}", step=step, algo=algo); return
+        if not (lo <= x <= hi):
+            case.fail("C01", f"{what}-outside-box", f"{pt!r} not in {box}", step=step, algo=algo); return
+
+
+def rel_close(a, b, tol=1e-9):
+    if a == b:
+        return True
+    if math.isinf(a) or math.isinf(b) or math.isnan(a) or math.isnan(b):
+        return False
+    return abs(a - b) <= tol * max(abs(a), abs(b)) + 1e-300
+
+
+def next_pow2(n):
+    p = 1
+    while p < n:
+        p *= 2
+    return p
+
+
+# ------------------------------------------------------------------ tree bandits: C03/C04/C05/C06
+def tree_bandit_hooks(name):
+    """Monitors for T_HOO / HCT / VHCT written from the published description, not from the code:
+    own ledger of (cell -> rewards), own ghost time stamps for the lazily refreshed U-values."""
+    S = {}
+
+    def params(ctx):
+        return ctx["meta"]["params"]
+
+    def after_init(ctx):
+        S["ledger"] = {}
+        S["dt"] = {}            # HCT/VHCT: delta-tilde each visited node's U was last computed with
+        S["rounds"] = 0
+
+    def c1(ctx):
+        p = params(ctx)
+        return (p["rho"] / (3 * p["nu"])) ** (1.0 / 8)
+
+    def tau_ref(ctx, nd, it):
+        p = params(ctx)
+        dt = min(0.5, c1(ctx) * p["delta"] / next_pow2(it))
+        h = nd.get_depth()
+        base = p["c"] ** 2 * math.log(1 / dt) * p["rho"] ** (-2 * h) / p["nu"] ** 2
+        if name == "HCT":
+            return base
+        var = max(float(np.var(np.array(S["ledger"].get(nd._vid, [])))) if S["ledger"].get(nd._vid) else 1e-3, 1e-3)
+        b = p["bound"]; nr = p["nu"] * p["rho"] ** h
+        return (var + 3 * b * nr + var * math.sqrt(1 + 6 * b * nr / var)) * base
+
+    def width(ctx, nd, dt, cnt, var):
+        p = params(ctx)
+        if name == "T_HOO":
+            return math.sqrt(2 * math.log(p["rounds"]) / cnt)
+        if name == "HCT":
+            return math.sqrt(p["c"] ** 2 * math.log(1 / dt) / cnt)
+        return math.sqrt(p["c"] ** 2 * 2 * var * math.log(1 / dt) / cnt) + 3 * p["bound"] * p["c"] ** 2 * math.log(1 / dt) / cnt
+
+    def u_ref(ctx, nd):
+        rs = S["ledger"].get(nd._vid, [])
+        if not rs:
+            return math.inf
+        p = params(ctx)
+        mean = math.fsum(rs) / len(rs)
+        var = max(float(np.var(np.array(rs))), 1e-3)
+        return mean + p["nu"] * p["rho"] ** nd.get_depth() + width(ctx, nd, S["dt"].get(nd._vid), len(rs), var)
+
+    def after_pull(ctx, t, pt):
+        case, part, a = ctx["case"], ctx["part"], ctx["algo"]
+        nd = node_of_point_m(part, pt)
+        S["pulled"] = nd
+        if nd is None:
+            case.fail("C05", "point-not-a-representative", "returned point is not the c_point of any cell", step=t, algo=name); return
+        # C05: greedy path from the root by B-values with the stopping rule
+        it = 1 + S["rounds"]
+        cur = part.get_root()
+        steps = 0
+        while True:
+            ch = cur.get_children()
+            if name == "T_HOO":
+                stop = ch is None
+            else:
+                if cur is part.get_root():
+                    stop = ch is None
+                else:
+                    tau = tau_ref(ctx, cur, it)
+                    cnt = len(S["ledger"].get(cur._vid, []))
+                    if abs(tau - round(tau)) < 1e-9 and abs(cnt - math.ceil(round(tau))) <= 1:
+                        S["neartie"] = S.get("neartie", 0) + 1
+                        return      # threshold within rounding of an integer: skip this round
+                    stop = ch is None or cnt < math.ceil(tau)
+            if stop:
+                break
+            bs = [c.get_b_value() for c in ch]
+            mx = max(bs)
+            # the pulled cell must continue through a maximal child
+            nxt = None
+            for c in ch:
+                if is_ancestor_or_self(c, nd):
+                    nxt = c
+            if nxt is None:
+                case.fail("C05", "path-stops-early", f"pulled cell is ({nd.get_depth()},{nd.get_index()}) but the rule continues below ({cur.get_depth()},{cur.get_index()})", step=t, algo=name)
+                return
+            if nxt.get_b_value() != mx:
+                case.fail("C05", "non-maximal-child", f"descent went to a child with B={nxt.get_b_value()!r} while a sibling has B={mx!r}", step=t, algo=name)
+                return
+            cur = nxt
+            steps += 1
+            if steps > 10000:
+                break
+        if cur is not nd:
+            case.fail("C05", "path-goes-deeper", f"rule stops at ({cur.get_depth()},{cur.get_index()}) but ({nd.get_depth()},{nd.get_index()}) was pulled", step=t, algo=name)
+        S["was_leaf"] = nd.get_children() is None
+        S["calls_mark"] = len(part._calls)
+        S["pull_it"] = it
+        S["tau_at_pull"] = None if name == "T_HOO" else tau_ref(ctx, nd, it)
+
+    def after_recv(ctx, t, pt, r):
+        case, part, a = ctx["case"], ctx["part"], ctx["algo"]
+        nd = S.get("pulled")
+        if nd is None:
+            return
+        p = params(ctx)
+        it = 1 + S["rounds"]            # HCT's round counter at this receive (before increment)
+        # ---- ledger (C04)
+        credited = []
+        if name == "T_HOO":
+            x = nd
+            while x is not None:
+                credited.append(x); x = x.get_parent()
+        else:
+            credited = [nd]
+        for x in credited:
+            S["ledger"].setdefault(x._vid, []).append(r)
+        S["rounds"] += 1
+        # ghost time stamps for lazily refreshed U (C05)
+        if name != "T_HOO":
+            dt_now = min(1.0, c1(ctx) * p["delta"] / next_pow2(it))
+            if it == next_pow2(it):
+                for x in reachable(part.get_root()):
+                    if S["ledger"].get(x._vid):
+                        S["dt"][x._vid] = dt_now
+            S["dt"][nd._vid] = dt_now
+        reach = reachable(part.get_root())
+        total = 0
+        for x in reach:
+            exp = S["ledger"].get(x._vid, [])
+            if list(x.rewards) != exp:
+                case.fail("C04", "reward-list", f"cell ({x.get_depth()},{x.get_index()}) holds {len(x.rewards)} rewards, history credits {len(exp)}", step=t, algo=name)
+                break
+            if x.visited_times != len(exp):
+                case.fail("C04", "visit-count", f"cell ({x.get_depth()},{x.get_index()}) count {x.visited_times} != {len(exp)}", step=t, algo=name); break
+            if exp and not rel_close(float(x.mean_reward), math.fsum(exp) / len(exp)):
+                case.fail("C04", "mean", f"stored mean {x.mean_reward!r} vs {math.fsum(exp)/len(exp)!r}", step=t, algo=name); break
+            if name == "VHCT":
+                v = max(float(np.var(np.array(exp))), 1e-3) if exp else 1e-3
+                if not rel_close(float(x.variance), v, 1e-7):
+                    case.fail("C04", "variance", f"stored variance {x.variance!r} vs {v!r}", step=t, algo=name); break
+            total += len(exp)
+        lost = sum(len(v) for k, v in S["ledger"].items()) - total
+        if name == "T_HOO":
+            if part.get_root().visited_times != S["rounds"]:
+                case.fail("C04", "count-sum", f"root count {part.get_root().visited_times} after {S['rounds']} rounds", step=t, algo=name)
+        elif total != S["rounds"]:
+            case.fail("C04", "count-sum", f"counts of the reachable tree sum to {total} after {S['rounds']} rounds (evidence lost/duplicated)", step=t, algo=name)
+        # ---- growth (C06)
+        calls = part._calls[S["calls_mark"]:]
+        if len(calls) > 1:
+            case.fail("C06", "multiple-expansions", f"{len(calls)} make_children calls in one round", step=t, algo=name)
+        for c in calls:
+            if c["parent"] != nd._vid:
+                case.fail("C06", "expanded-other-cell", f"expanded cell {c['parent']} but pulled {nd._vid}", step=t, algo=name)
+            if not S["was_leaf"]:
+                case.fail("C06", "expanded-internal-cell", f"cell ({nd.get_depth()},{nd.get_index()}) already had children when it was split again", step=t, algo=name)
+            for i in c["created"]:
+                k = part._all[i]
+                if k.visited_times != 0 or not (math.isinf(k.u_value) and k.u_value > 0 and math.isinf(k.b_value) and k.b_value > 0):
+                    case.fail("C06", "new-cell-state", "new cell does not start with zero pulls and infinite index", step=t, algo=name)
+        expanded = len(calls) > 0
+        if name == "T_HOO":
+            Dv = (math.log(p["rounds"]) / 2 - math.log(1 / p["nu"])) / math.log(1 / p["rho"])
+            if abs(Dv - round(Dv)) > 1e-9:
+                D = math.ceil(Dv)
+                should = nd.get_depth() <= D
+                if should != expanded:
+                    case.fail("C06", "expansion-rule", f"depth {nd.get_depth()}, bound {D}: expanded={expanded}", step=t, algo=name)
+                if part.get_depth() > max(1, D + 1):
+                    case.fail("C06", "too-deep", f"tree depth {part.get_depth()} > {max(1, D+1)}", step=t, algo=name)
+        else:
+            tau = S["tau_at_pull"]
+            cnt = len(S["ledger"].get(nd._vid, []))
+            if tau is not None and abs(tau - round(tau)) > 1e-9:
+                if name == "VHCT":
+                    tau = None   # VHCT's threshold uses the variance at pull time; recomputed below
+                if tau is not None:
+                    should = S["was_leaf"] and cnt >= math.ceil(tau)
+                    if should != expanded:
+                        case.fail("C06", "expansion-rule", f"leaf={S['was_leaf']} count={cnt} tau={math.ceil(tau)}: expanded={expanded}", step=t, algo=name)
+        # ---- B recursion / U formula (C05)
+        root = part.get_root()
+        for x in reach:
+            if x is root:
+                continue
+            cnt = len(S["ledger"].get(x._vid, []))
+            if cnt == 0:
+                if not (math.isinf(x.u_value) and x.u_value > 0):
+                    case.fail("C05", "unvisited-u", f"unvisited cell has U={x.u_value!r}", step=t, algo=name); break
+            else:
+                if name == "T_HOO":
+                    S["dt"][x._vid] = None
+                ur = u_ref(ctx, x)
+                if not rel_close(float(x.u_value), ur, 1e-7 if name == "VHCT" else 1e-9):
+                    case.fail("C05", "u-formula", f"cell ({x.get_depth()},{x.get_index()}) U={x.u_value!r}, published formula gives {ur!r}", step=t, algo=name); break
+            ch = x.get_children()
+            expB = x.u_value if ch is None else min(x.u_value, max(c.get_b_value() for c in ch))
+            if x.get_b_value() != expB:
+                case.fail("C05", "b-recursion", f"cell ({x.get_depth()},{x.get_index()}) B={x.get_b_value()!r} expected {expB!r}", step=t, algo=name); break
+
+    return {"after_init": after_init, "after_pull": after_pull, "after_recv": after_recv}
+
+
+def node_of_point_m(part, pt):
+    for nd in part._all:
+        if nd.get_cpoint() is pt:
+            return nd
+    return None
+
+
+def is_ancestor_or_self(anc, nd):
+    x = nd
+    while x is not None:
+        if x is anc:
+            return True
+        x = x.get_parent()
+    return False
